@@ -310,6 +310,40 @@ def excluded_of(lits, e):
     return out
 
 
+def _first_conditional(e):
+    """the first ?: that evaluating e always evaluates (not inside the right operand of && / ||, an arm of another ?:, a lambda)."""
+    st = [e]
+    while st:
+        x = st.pop(0)
+        if not isinstance(x, dict):
+            continue
+        k = x.get('k')
+        if k == 'ConditionalOperator':
+            return x
+        if k == 'LambdaExpr':
+            continue
+        c = list(x.get('c') or ())
+        if k == 'BinaryOperator' and x.get('op') in ('&&', '||'):
+            c = c[:1]
+        st = c + st
+    return None
+
+
+def _subst_node(root, target, repl):
+    if root is target:
+        return repl
+    if not isinstance(root, dict):
+        return root
+    if not any(m is target for m in walk(root)):
+        return root
+    o = dict(root)
+    if root.get('c'):
+        o['c'] = [_subst_node(c, target, repl) for c in root['c']]
+    if isinstance(root.get('init'), dict):
+        o['init'] = _subst_node(root['init'], target, repl)
+    return o
+
+
 def enum_paths(stmt, limit=4000):
     """All acyclic paths through a statement made of compound / if / switch /
     return / throw; loops, try blocks and everything else are opaque single
@@ -343,16 +377,15 @@ def enum_paths(stmt, limit=4000):
             return seq(list(s.get('c') or ()))
         if kind == 'ReturnStmt':
             e = (s.get('c') or [None])[0]
-            x = e
-            while isinstance(x, dict) and x.get('k') in ('CXXConstructExpr', 'CXXFunctionalCastExpr') and len(x.get('c') or ()) == 1 and x['c'][0].get('k') in ('ConditionalOperator', 'CXXConstructExpr'):
-                x = x['c'][0]
+            x = _first_conditional(e)
             if isinstance(x, dict) and x.get('k') == 'ConditionalOperator' and len(x.get('c') or ()) == 3:
-                # `return c ? a : b;` is `if (c) return a; else return b;`
+                # `return c ? a : b;` is `if (c) return a; else return b;` - also when the selection is an operand that the returned expression always
+                # evaluates (`return new T(c ? a : b);` is `if (c) return new T(a); else return new T(b);`)
                 out = []
                 for atoms, outcome in decisions(x['c'][0]):
                     arm = x['c'][1] if outcome else x['c'][2]
                     r = dict(s)
-                    r['c'] = [arm]
+                    r['c'] = [_subst_node(e, x, arm)]
                     for q in paths(r):
                         cs = tuple(('if', n, pol) for n, pol in atoms)
                         out.append(Path(cs + q.conds, q.stmts, q.end, q.endnode, seq=tuple(('c', c) for c in cs) + q.seq))
